@@ -43,6 +43,7 @@ type req struct {
 	Name     string          `json:"name"`
 	Repeat   int             `json:"repeat"`
 	TimeoutM int             `json:"timeoutMs"`
+	NumKind  string          `json:"numKind"` // store integral numbers of the document as this Go kind
 }
 
 // ---------- instrumentation state for the registered test functions ----------
@@ -365,6 +366,81 @@ func decodeTyped(raw json.RawMessage) (any, error) {
 	return nil, fmt.Errorf("unknown typed value %q", tv.T)
 }
 
+// retype stores every integral float64 that fits as the given Go kind (the engine accepts any Go
+// number kind in its input; JSON decoding only ever produces float64)
+func retype(v any, kind string) any {
+	switch t := v.(type) {
+	case []any:
+		for i := range t {
+			t[i] = retype(t[i], kind)
+		}
+		return t
+	case map[string]any:
+		for k := range t {
+			t[k] = retype(t[k], kind)
+		}
+		return t
+	case float64:
+		if t != math.Trunc(t) || math.IsInf(t, 0) || math.Abs(t) > 1<<53 {
+			if kind == "float32" && float64(float32(t)) == t {
+				return float32(t)
+			}
+			return t
+		}
+		in := func(lo, hi float64) bool { return t >= lo && t <= hi }
+		switch kind {
+		case "int":
+			return int(t)
+		case "int64":
+			return int64(t)
+		case "int32":
+			if in(math.MinInt32, math.MaxInt32) {
+				return int32(t)
+			}
+		case "int16":
+			if in(math.MinInt16, math.MaxInt16) {
+				return int16(t)
+			}
+		case "int8":
+			if in(math.MinInt8, math.MaxInt8) {
+				return int8(t)
+			}
+		case "uint":
+			if t >= 0 {
+				return uint(t)
+			}
+		case "uint64":
+			if t >= 0 {
+				return uint64(t)
+			}
+		case "uint32":
+			if in(0, math.MaxUint32) {
+				return uint32(t)
+			}
+		case "uint16":
+			if in(0, math.MaxUint16) {
+				return uint16(t)
+			}
+		case "uint8":
+			if in(0, math.MaxUint8) {
+				return uint8(t)
+			}
+		case "float32":
+			if float64(float32(t)) == t {
+				return float32(t)
+			}
+		case "mixed":
+			kinds := []string{"int", "int64", "int32", "int16", "int8", "uint", "uint64", "uint32", "uint16", "uint8", "float32", "float64"}
+			mixedCounter++
+			return retype(t, kinds[mixedCounter%len(kinds)])
+		}
+		return t
+	}
+	return v
+}
+
+var mixedCounter int
+
 // deep copy of JSON-like data
 func deepCopy(v any) any {
 	switch t := v.(type) {
@@ -404,6 +480,9 @@ func opQuery(r *req) (out resp) {
 	if !ok {
 		out["bad"] = "doc must be an object"
 		return
+	}
+	if r.NumKind != "" {
+		doc = retype(doc, r.NumKind).(map[string]any)
 	}
 	before, _ := encode(doc)
 	opts := []genql.QueryOption{}
